@@ -10,6 +10,7 @@ C17: every alternative registered under f2003 is registered under f2008 under th
 """
 import itertools
 import json
+import re
 import os
 import subprocess
 import sys
@@ -294,8 +295,16 @@ def main(argv):
             accepted += 1
             v8 = a08[src]
             if v8 is None or v8.lower() != v3.lower():
+                # the site of a difference: the statement shapes (keywords kept, names and numbers abstracted) that differ
+                def shape_of(line):
+                    t = re.sub(r"[a-z_0-9]+", "_", line.strip())
+                    return re.sub(r"_(, _)+", "_", t)
+                site = None
+                if v8 is not None and len(v8.splitlines()) == len(v3.splitlines()):
+                    site = sorted({(shape_of(x), shape_of(y)) for x, y in zip(v3.splitlines(), v8.splitlines()) if x.lower() != y.lower()})
+                    site = [list(pair) for pair in site]
                 failures.append(dict(obligation="two.Fortran2008#f2008_accepts_what_f2003_accepts",
-                                     witness=dict(source=src), observed=dict(f2003=v3, f2008=v8)))
+                                     witness=dict(source=src, site=site), observed=dict(f2003=v3, f2008=v8)))
         # rejection direction: Fortran 2008-only constructs are rejected by the f2003 parser and accepted by the f2008 parser
         only08src = {
             "submodule": "submodule (a) b\nend submodule b\n",
